@@ -305,7 +305,11 @@ func VxC15MemoryBatch() {
 	apply := func(b db.IndexedBatch) {
 		nops := 1 + vx.Choice("nops", maxOps)
 		for i := 0; i < nops; i++ {
-			switch vx.Choice("op", 3) {
+			kinds := 3
+			if i == 2 {
+				kinds = 2 // a third operation (thorough tier) is a Put or a Delete: three range deletes exceed the path budget
+			}
+			switch vx.Choice("op", kinds) {
 			case 0:
 				k, v := vxKey("k"), []byte{vx.U8("v")}
 				vx.Assert(b.Put(k, v) == nil, "batch-put-ok")
